@@ -334,6 +334,7 @@ class ExtendUnion(ParseHarness):
         out = {'root': root, 'trees': trees, 'alt': None}
         if 'err' in self.alts_kinds and len(base) > 1: alts = alts + [('err', None)]
         if 'rendered' in self.alts_kinds and len(base) > 1: alts = alts + [('rendered', None)]
+        if 'err' in self.alts_kinds and len(base) > 1: alts = alts + [('attr-err', None)]
         if alts:
             kind, order = alts[m.choose(len(alts))]
             if kind == 'err':
@@ -342,6 +343,11 @@ class ExtendUnion(ParseHarness):
                 r = X.reader(last[:cut] + [X.Entry(X.ev_err('cut%d' % cut), pos=7)])
                 res = m.call_fn(m.fns['extend_struct'], [r, deep(out['trees'][-2])])
                 out['alt'] = ('err', cut, res); return out
+            if kind == 'attr-err':
+                # the root element of the last document (which already exists in the structure) carries a malformed attribute: the extension must fail
+                bad = [X.Entry(X.ev_start(self.fam_kw.get('rname', 'r'), ['k', ('err', 'malformed attribute')], 'bad')), X.Entry(X.ev_end(self.fam_kw.get('rname', 'r')))]
+                res = m.call_fn(m.fns['extend_struct'], [X.reader(bad), deep(out['trees'][-2])])
+                out['alt'] = ('attr-err', 0, res); return out
             if kind == 'rendered':
                 # the same supply order, but the intermediate structure is rendered after every step: rendering must not change what later steps produce
                 saved = m.char_ops_forbidden; m.char_ops_forbidden = False
@@ -373,6 +379,8 @@ class ExtendUnion(ParseHarness):
             kind, order, r2 = out['alt']
             if kind == 'err':
                 conds.append(('failed extension reports the reader error, not a partial result', r2.variant == 'Err' and r2.p[0].variant == 'QuickXmlError'))
+            elif kind == 'attr-err':
+                conds.append(('extension with a malformed attribute on an existing element reports the attribute error, not a partial result', r2.variant == 'Err' and r2.p[0].variant == 'AttrError'))
             elif kind == 'rendered':
                 conds.append(('rendering between the steps does not change the final rendering', SEQ(order[0], order[1])))
                 conds.append(('rendering between the steps does not change the final schema', schema_eq(out['root'], r2)))
@@ -399,6 +407,11 @@ class ExtendUnion(ParseHarness):
         failed = []
         base_out = {'root': trees[-1], 'trees': trees, 'alt': None}
         failed += [l for l, f in self.assertions(None, base_out) if not am.truth(f)]
+        if 'err' in self.alts_kinds and len(docs) > 1:
+            rn = self.fam_kw.get('rname', 'r')
+            nb = replay.ask({'op': 'render', 'docs': docs[:-1] + ['<%s k="1" x=1></%s>' % (rn, rn)], 'options': []})
+            last = nb.get('steps', [{}])[-1]
+            if len(nb.get('steps', [])) == len(docs) and last.get('ok'): failed.append('an extension document with a malformed attribute on the (existing) root element is merged and reported Ok')
         if 'rendered' in self.alts_kinds and len(docs) > 1:
             n1 = replay.ask({'op': 'render', 'docs': docs, 'options': [{'preset': 'quick_xml_de'}]})
             n2 = replay.ask({'op': 'render', 'docs': docs, 'options': [{'preset': 'quick_xml_de'}], 'render_each': True})
